@@ -692,5 +692,5 @@ MANIFEST = {
     "monotonicity, and bin-for-bin equality with the unpermuted / unscaled run. Inputs that must be refused are enumerated bin by bin. Exhaustive inside the bound.",
     "note": "Trusted: pandas/numpy; smoothing.rolling_median inside the oracle (rule 6, verified by C19). Not covered: covariate ties (seeded shuffle), "
     "samples with most bins uncovered, clustered references (do_cluster), PAR handling, tables beyond the bound.",
-    "technique": "exhaustive enumeration of (reference, sample tables, correction subset, scale, row order) on the real code against a pure-Python model",
+    "technique": "exhaustive enumeration of (reference, sample tables, correction subset, scale, row order) on the real code against a pure-Python model; every configuration also called a second time on the same table objects",
 }
